@@ -24,21 +24,22 @@ pub struct FillCase {
     pub path: PathSpec,
     pub src: SrcSpec,
     pub opts: Opts,
+    /// an extra transform of the source's own (user space -> the space the constructor placed the source in),
+    /// set directly in the public `Source` variant: every source kind then has a non-trivial transform of its own
+    #[serde(default)]
+    pub own: Option<Xf>,
 }
 
 /// the same source with its user-space-to-source-space transform preceded by `pre`
-fn with_pre_transform<R>(src: &SrcSpec, pre: &Transform, f: impl FnOnce(&Source) -> R) -> R {
-    src.with(|s| {
-        let moved = match s.clone() {
-            Source::Solid(c) => Source::Solid(c),
-            Source::Image(i, e, fl, t) => Source::Image(i, e, fl, pre.then(&t)),
-            Source::RadialGradient(g, sp, t) => Source::RadialGradient(g, sp, pre.then(&t)),
-            Source::TwoCircleRadialGradient(g, sp, c1, r1, c2, r2, t) => Source::TwoCircleRadialGradient(g, sp, c1, r1, c2, r2, pre.then(&t)),
-            Source::LinearGradient(g, sp, t) => Source::LinearGradient(g, sp, pre.then(&t)),
-            Source::SweepGradient(g, sp, a, b, t) => Source::SweepGradient(g, sp, a, b, pre.then(&t)),
-        };
-        f(&moved)
-    })
+fn moved_source<'a>(s: &Source<'a>, pre: &Transform) -> Source<'a> {
+    match s.clone() {
+        Source::Solid(c) => Source::Solid(c),
+        Source::Image(i, e, fl, t) => Source::Image(i, e, fl, pre.then(&t)),
+        Source::RadialGradient(g, sp, t) => Source::RadialGradient(g, sp, pre.then(&t)),
+        Source::TwoCircleRadialGradient(g, sp, c1, r1, c2, r2, t) => Source::TwoCircleRadialGradient(g, sp, c1, r1, c2, r2, pre.then(&t)),
+        Source::LinearGradient(g, sp, t) => Source::LinearGradient(g, sp, pre.then(&t)),
+        Source::SweepGradient(g, sp, a, b, t) => Source::SweepGradient(g, sp, a, b, pre.then(&t)),
+    }
 }
 
 pub fn check_fill(c: &FillCase) -> CheckResult {
@@ -50,10 +51,18 @@ pub fn check_fill(c: &FillCase) -> CheckResult {
     let dopts = c.opts.build();
     let mut a = new_target(c.w, c.h, &c.init);
     a.set_transform(&t);
-    c.src.with(|s| a.fill(&path, s, &dopts));
     let mut b = new_target(c.w, c.h, &c.init);
     let moved = path.clone().transform(&t);
-    with_pre_transform(&c.src, &ti, |s| b.fill(&moved, s, &dopts));
+    c.src.with(|s| {
+        // the source as the caller holds it (with its own extra transform, if any) ...
+        let own = match &c.own {
+            Some(e) => moved_source(s, &to_transform(e)),
+            None => s.clone(),
+        };
+        a.fill(&path, &own, &dopts);
+        // ... and the same source moved to T^-1 . S for the draw under the identity
+        b.fill(&moved, &moved_source(&own, &ti), &dopts);
+    });
     if let Some(m) = diff(a.get_data(), b.get_data(), c.w) {
         return Err(format!(
             "fill under transform {:?} differs from filling Path::transform of the path under the identity (source moved to T^-1 . S): {} [{}]",
@@ -68,6 +77,7 @@ pub fn check_fill(c: &FillCase) -> CheckResult {
     o.class(classify_xf(&c.xf));
     o.class(c.src.kind());
     o.class_if(c.path.has_curves(), "curves");
+    o.class_if(changed && c.own.is_some() && !matches!(c.src, SrcSpec::Solid(..)) && !matches!(classify_xf(&c.xf), "xf:identity"), "source-with-own-transform-under-ctm");
     if let SrcSpec::Image { xf: ixf, .. } = &c.src {
         let m = ti.then(&to_transform(ixf));
         let not_transl = |x: &Xf| !(x[0] == 1.0 && x[1] == 0.0 && x[2] == 0.0 && x[3] == 1.0);
@@ -82,9 +92,10 @@ fn fill_strategy(ctx: &Ctx) -> BoxedStrategy<FillCase> {
         .prop_flat_map(move |(w, h)| {
             let ext = w.max(h) as f32;
             let cancel = (0u8..6, prop::sample::select(vec![2.0f32, 4.0, 0.5, -1.0, -2.0]), 0u8..4, (-4i32..=4, -4i32..=4), (-6i32..=6, -6i32..=6));
-            (Just((w, h)), init_pixels(w, h), xf_invertible(5.0), prop_oneof![poly_path(ext), curvy_path(ext)], any_src(&ctx, ext), opts_any(), cancel)
+            let own = prop_oneof![1 => Just(None), 1 => xf_invertible(3.0).prop_map(Some)];
+            (Just((w, h)), init_pixels(w, h), xf_invertible(5.0), prop_oneof![poly_path(ext), curvy_path(ext)], any_src(&ctx, ext), opts_any(), cancel, own)
         })
-        .prop_map(|((w, h), init, mut xf, path, mut src, opts, (sel, k, quarter, (tx, ty), (sx, sy)))| {
+        .prop_map(|((w, h), init, mut xf, path, mut src, opts, (sel, k, quarter, (tx, ty), (sx, sy)), mut own)| {
             // one image case in six: the linear part of the current transform is exactly undone by the image's own
             // transform (a "@2x image on a 2x display", or two equal quarter turns), with whole-number translations,
             // so that device-to-image space is a pure integer translation although neither matrix is one
@@ -100,9 +111,10 @@ fn fill_strategy(ctx: &Ctx) -> BoxedStrategy<FillCase> {
                     // translations that are whole multiples of the scale keep the inverse's translation integral
                     xf = [lin[0], lin[1], lin[2], lin[3], tx as f32 * m.max(1.0), ty as f32 * m.max(1.0)];
                     *ixf = [lin[0], lin[1], lin[2], lin[3], sx as f32, sy as f32];
+                    own = None;
                 }
             }
-            FillCase { w, h, init, xf, path, src, opts }
+            FillCase { w, h, init, xf, path, src, opts, own }
         })
         .boxed()
 }
@@ -475,7 +487,7 @@ pub fn property(ctx: &Ctx) -> Property {
     let (c1, c2, c3, c4, c5) = (ctx.clone(), ctx.clone(), ctx.clone(), ctx.clone(), ctx.clone());
     Property {
         id: "C11",
-        rule: "part fill: random polygon/curve paths, every source kind, 28 modes, all invertible transform classes: fill under T must equal, bit for bit, filling Path::transform(T) of the path under the identity with the source's transform preceded by T^-1 (sources live in user space). part stroke: polylines stroked (all caps/joins/dashes) under a similarity must match stroking the transformed polyline with width, dashes and offset scaled (line width scales with T) up to one quarter-sample flip per edge. part singular: every drawing call except mask/clear under non-invertible T changes nothing. part device: push_clip_rect (probed by an identity-transform fill), mask geometry with solid sources, copy_surface, blend_surface, blend_surface_with_alpha give identical pixels under any T. part restore: get_transform() is bit-equal after clear() and pop_layer (with/without clip) and a following draw equals the draw with T re-set. part rect: fill_rect (integer and fractional rectangles) and draw_image_at under any T, half of them translations with each axis zero / whole / fractional on its own, must equal, bit for bit, filling PathBuilder::rect of the same rectangle (with the translated image source) under the same T. parts gradient-under-ctm / image-under-ctm: C12's gradient cases and C13's image cases with a non-identity current transform (incl. mirrored, sheared and zoomed user spaces), colour judged absolutely at T^-1 of the pixel centre by those properties' oracles. Non-trivial: T not identity/integer translation (fill), scale away from 1 (stroke), non-identity T (device/restore); distinct by hash of the case.",
+        rule: "part fill: random polygon/curve paths, every source kind, 28 modes, all invertible transform classes: fill under T must equal, bit for bit, filling Path::transform(T) of the path under the identity with the source's transform preceded by T^-1 (sources live in user space); in half of the cases the source also carries an extra transform of its own, set directly in the public Source variant, so that every source kind (two-circle included) composes a non-trivial own transform with the CTM. part stroke: polylines stroked (all caps/joins/dashes) under a similarity must match stroking the transformed polyline with width, dashes and offset scaled (line width scales with T) up to one quarter-sample flip per edge. part singular: every drawing call except mask/clear under non-invertible T changes nothing. part device: push_clip_rect (probed by an identity-transform fill), mask geometry with solid sources, copy_surface, blend_surface, blend_surface_with_alpha give identical pixels under any T. part restore: get_transform() is bit-equal after clear() and pop_layer (with/without clip) and a following draw equals the draw with T re-set. part rect: fill_rect (integer and fractional rectangles) and draw_image_at under any T, half of them translations with each axis zero / whole / fractional on its own, must equal, bit for bit, filling PathBuilder::rect of the same rectangle (with the translated image source) under the same T. parts gradient-under-ctm / image-under-ctm: C12's gradient cases and C13's image cases with a non-identity current transform (incl. mirrored, sheared and zoomed user spaces), colour judged absolutely at T^-1 of the pixel centre by those properties' oracles. Non-trivial: T not identity/integer translation (fill), scale away from 1 (stroke), non-identity T (device/restore); distinct by hash of the case.",
         assumptions: vec![
             "mask() under a singular transform is not judged (the statement allows both readings)",
             "stroke part: the two sides differ by f32 rounding of positions, which the quarter-pixel vertex truncation can amplify to 1/4 px: alpha differences up to 80/255 (polylines) resp. 140/255 (curves, 0.2 px flattening difference) per pixel are accepted; a width that does not scale differs by 255 on whole bands",
@@ -495,7 +507,7 @@ pub fn property(ctx: &Ctx) -> Property {
             part("gradient-under-ctm", 12_000, 200_000, move || super::c12::strategy(&c4).prop_filter("non-identity CTM", |c| c.ctm != IDENT).boxed(), super::c12::check),
             part("image-under-ctm", 20_000, 300_000, || super::c13::strategy().prop_filter("non-identity CTM", |c| c.ctm != IDENT).boxed(), super::c13::check),
         ],
-        min_class_fraction: vec![("fill", "src:image", 0.1), ("fill", "image:linear-parts-cancel-to-integer-translation", 0.01), ("fill", "xf:general", 0.05), ("fill", "xf:rotation", 0.05), ("stroke", "dashed", 0.1), ("stroke", "curved-input", 0.25), ("restore", "pop_layer", 0.3), ("rect", "translation-along-one-axis", 0.1), ("rect", "integer-rect", 0.1)],
+        min_class_fraction: vec![("fill", "src:image", 0.1), ("fill", "image:linear-parts-cancel-to-integer-translation", 0.01), ("fill", "xf:general", 0.05), ("fill", "source-with-own-transform-under-ctm", 0.05), ("fill", "xf:rotation", 0.05), ("stroke", "dashed", 0.1), ("stroke", "curved-input", 0.25), ("restore", "pop_layer", 0.3), ("rect", "translation-along-one-axis", 0.1), ("rect", "integer-rect", 0.1)],
         panic_is_violation: false,
     }
 }
